@@ -532,6 +532,36 @@ func diNodes() []func() metadata.Definition {
 
 const diMarker = "ZQZmarkerZQZ"
 
+// fillRequired gives the other fields of a fresh node values the printer and the parser accept:
+// nil metadata operands become null, zero enumerators of package enum become their first member.
+func fillRequired(node metadata.Definition) (extra []metadata.Definition) {
+	v := reflect.ValueOf(node).Elem()
+	fileType := reflect.TypeOf(&metadata.DIFile{})
+	null := reflect.ValueOf(&metadata.NullLit{})
+	for i := 0; i < v.NumField(); i++ {
+		f := v.Field(i)
+		if !v.Type().Field(i).IsExported() || !f.CanSet() {
+			continue
+		}
+		switch {
+		case f.Kind() == reflect.Interface && f.IsNil() && null.Type().Implements(f.Type()):
+			f.Set(null)
+		case f.Type() == fileType && f.IsNil() && v.Type() != fileType.Elem():
+			file := &metadata.DIFile{MetadataID: -1, Filename: "file", Directory: "dir"}
+			f.Set(reflect.ValueOf(file))
+			extra = append(extra, file)
+		case strings.HasSuffix(f.Type().PkgPath(), "/ir/enum") &&
+			(strings.HasPrefix(f.Type().Name(), "DwarfLang") || strings.HasPrefix(f.Type().Name(), "DwarfMacinfo")):
+			if f.CanUint() && f.Uint() == 0 {
+				f.SetUint(1)
+			} else if f.CanInt() && f.Int() == 0 {
+				f.SetInt(1)
+			}
+		}
+	}
+	return extra
+}
+
 // diPositions returns one position per exported string field of a specialized
 // metadata node whose baseline (the field set to a plain marker, everything
 // else zero) survives print and parse in the library.  The names of the fields
@@ -554,9 +584,10 @@ func diPositions() (ps []*position, skipped []string) {
 					}
 				}()
 				node := mk()
+				extra := fillRequired(node)
 				reflect.ValueOf(node).Elem().Field(fi).SetString(b)
 				m := ir.NewModule()
-				m.MetadataDefs = append(m.MetadataDefs, node)
+				m.MetadataDefs = append(append(m.MetadataDefs, extra...), node)
 				m.NamedMetadataDefs["keep"] = &metadata.NamedDef{Name: "keep", Nodes: []metadata.Node{node}}
 				return m.String(), true
 			}
@@ -588,8 +619,9 @@ func diPositions() (ps []*position, skipped []string) {
 			ps = append(ps, &position{name: name, enc: "enc.Quote", kind: "string", single: true, asOnly: true, noLLVM: true,
 				build: func(m *ir.Module, its []item) {
 					node := mk()
+					extra := fillRequired(node)
 					reflect.ValueOf(node).Elem().Field(fi).SetString(its[0].b)
-					m.MetadataDefs = append(m.MetadataDefs, node)
+					m.MetadataDefs = append(append(m.MetadataDefs, extra...), node)
 					m.NamedMetadataDefs["keep"] = &metadata.NamedDef{Name: "keep", Nodes: []metadata.Node{node}}
 				},
 				text: func(toks []string, its []item) string { return strings.Replace(base, quoted, toks[0], 1) },
